@@ -88,3 +88,17 @@ func startHangMonitor() {
 		}()
 	})
 }
+
+// FDCount returns the number of open file descriptors of process pid (0 =
+// this process), or -1 when it cannot be read.
+func FDCount(pid int) int {
+	dir := "/proc/self/fd"
+	if pid > 0 {
+		dir = fmt.Sprintf("/proc/%d/fd", pid)
+	}
+	ents, err := os.ReadDir(dir)
+	if err != nil {
+		return -1
+	}
+	return len(ents)
+}
